@@ -107,6 +107,24 @@ void adapter_exec(Ev *ev)
         sx_destroy(&q.node);
         xfree(emb);
     }
+    /* fourth presentation: the text behind three other characters, parsed with a start index (sx_parse(s, n, i)):
+     * same status and tree, position shifted by the start index */
+    {
+        static const char head[] = "(7 ";
+        size_t k = sizeof head - 1;
+        char *sh = xblock(n + k);
+        memcpy(sh, head, k);
+        memcpy(sh + k, z, n);
+        struct sx_parse_result q = sx_parse(sh, n + k, k);
+        long long st4 = q.status == SXS_SUCCESS ? 0 : 1;
+        if (st4 == 1 && q.node != NULL) st4 = 2;
+        if (st4 == 0 && q.node == NULL) st4 = 3;
+        nflat = 0;
+        if (st4 == 0) flatten(q.node, 0);
+        if (st4 != status || (st4 == 0 && ((long long)q.position != pos + (long long)k || nflat != nflat1 || memcmp(flat, flat1, sizeof(long long) * (size_t)nflat) != 0))) agree = 0;
+        sx_destroy(&q.node);
+        xfree(sh);
+    }
     obs(ev, status);
     if (status == 0) obs(ev, pos);
     obs(ev, leak);
